@@ -471,10 +471,11 @@ class ProgGen:
                 opts["kwargs"] = {v: ["var", v]}
         r = rng.random()
         if self.flavour == "scope" and rng.random() < 0.15:
-            # `only` is generated on tags without a body: with a body, fill content under django mode + only
-            # is a listed finding (C03-only-flag-hides-outer-variables-from-fill), shown by its witness
+            # `only` isolates one component: its template sees only its own data and its fills are lexically scoped
             opts["only"] = True
-            r = 0.0
+            self.features.add("only")
+            if rng.random() < 0.4:
+                r = 0.0
         body = None
         targets = self.slotnames.get(cname) or SLOT_NAMES
         if r < 0.25:
